@@ -728,7 +728,18 @@ func runC03(c *config) {
 		f := m.NewFunc("f", types.Void)
 		f.Personality = pers
 		entry, cs, h1, cl, cl2, done := f.NewBlock("entry"), f.NewBlock("cs"), f.NewBlock("h1"), f.NewBlock("cl"), f.NewBlock("cl2"), f.NewBlock("done")
-		entry.NewInvoke(callee, nil, done, cs)
+		// (the invokee is variadic in two of the variants: LLVM then wants the full function type written out)
+		wantInvoke := "invoke void @callee()"
+		if variant >= 2 {
+			vc := m.NewFunc("vcallee", types.Void, ir.NewParam("", types.I32))
+			vc.Sig.Variadic = true
+			vc.Typ = nil
+			_ = vc.Type()
+			entry.NewInvoke(vc, []value.Value{constant.NewInt(types.I32, 1), constant.NewInt(types.I64, 2)}, done, cs)
+			wantInvoke = "invoke void (i32, ...) @vcallee(i32 1, i64 2)"
+		} else {
+			entry.NewInvoke(callee, nil, done, cs)
+		}
 		var unwind, unwind2 *ir.Block
 		if variant&1 != 0 {
 			unwind = cl
@@ -748,7 +759,31 @@ func runC03(c *config) {
 		pad2.SetName("pad2")
 		cl2.NewCleanupRet(pad2, nil)
 		done.NewRet(nil)
-		c03Check(c, m, map[string]interface{}{"program": fmt.Sprintf("catchswitch / catchpad / catchret / cleanuppad / cleanupret through the constructors, variant %d (bit 0: catchswitch unwinds to a block, bit 1: cleanupret unwinds to a block)", variant)}, "", false)
+		if text, oc, _ := printGuard(m); oc == ocOk && !strings.Contains(text, wantInvoke) {
+			o.Fail("constructed_text", "", "the printed invoke does not spell what was constructed: want "+wantInvoke, map[string]interface{}{"printed": text})
+		} else if oc == ocOk {
+			o.Pass("constructed_text")
+		}
+		c03Check(c, m, map[string]interface{}{"program": fmt.Sprintf("invoke / catchswitch / catchpad / catchret / cleanuppad / cleanupret through the constructors, variant %d (bit 0: catchswitch unwinds to a block, bit 1: cleanupret unwinds to a block and the invokee is variadic)", variant)}, "", false)
+	}
+	// a reference to an unnamed block of a function that is printed after the reference (KF-39): a blockaddress in
+	// a global initialiser and in an earlier function
+	{
+		m := ir.NewModule()
+		first := m.NewFunc("first", types.NewPointer(types.I8))
+		f := m.NewFunc("f", types.Void, ir.NewParam("", types.I32))
+		e := f.NewBlock("")
+		bb := f.NewBlock("")
+		e.NewBr(bb)
+		bb.NewRet(nil)
+		first.NewBlock("").NewRet(constant.NewBlockAddress(f, bb))
+		m.NewGlobalDef("g", constant.NewBlockAddress(f, bb))
+		if text, oc, _ := printGuard(m); oc == ocOk && !strings.Contains(text, "@g = global i8* blockaddress(@f, %2)") {
+			o.Fail("constructed_text", "", "the first print of a constructed module does not name the block a blockaddress refers to", map[string]interface{}{"printed": text})
+		} else if oc == ocOk {
+			o.Pass("constructed_text")
+		}
+		c03Check(c, m, map[string]interface{}{"program": "blockaddress of an unnamed block of a later function, in a global and in an earlier function"}, "", false)
 	}
 	// address spaces can only be given by assigning the field after the constructor: the typed uses must follow
 	for variant := 0; variant < 3; variant++ {
